@@ -508,4 +508,11 @@ theorem tie_skel_newClientSession_names : Gen.Skel.newClientSession = [
   "return session, nil",
   "}"] := by rfl
 
+/-! GetStream does not wait for anything the watchers do (no manager lock) -/
+theorem tie_skel_c17_SessionManager_GetStream : Gen.Skel.SessionManager_GetStream = [
+  "func (sm *SessionManager) GetStream() (*Stream, error) {",
+  "i := (atomic.AddUint64(&sm.count, 1) / sessionRoundRobinThreshold) % uint64(len(sm.pools))",
+  "return sm.pools[i].getOrOpenStream()",
+  "}"] := by rfl
+
 end Tie.C16
